@@ -4,7 +4,7 @@
 //! (1–3 partitions) over scripted sources: a generated finite *prefix* (0–4 batches of 1–6 rows per
 //! partition, `ts` non-decreasing per partition — strictly increasing and unique across partitions
 //! for the window shapes) followed by an endless tail whose `ts` keeps increasing (starting 10
-//! above the largest prefix `ts`, 8 rows per batch, keys ≥ 100 so that tail rows never join or
+//! above the largest prefix `ts`, 4 rows per batch, keys ≥ 100 so that tail rows never join or
 //! group with prefix rows; window shapes: same keys as the prefix, see below). Query shapes (SQL, default optimizer, generated
 //! `target_partitions` and `batch_size`): filter + projection, UNION ALL, ORDER BY ts
 //! (sort-preserving merge), symmetric hash join with a range condition on `ts` (INNER / LEFT /
@@ -15,8 +15,8 @@
 //!
 //! Oracle. Planning fails → "rejected" (fine, trivial). Otherwise the stream is consumed on a
 //! current-thread runtime until every source partition has produced D tail batches, D = max(B =
-//! 2 000 (B/4 for the join without pruning, whose cost is quadratic in the input seen),
-//! 4 x batch_size x target_partitions / 8 rows per tail batch) — order-preserving merges
+//! 2 000 (B/16 for the join without pruning, whose cost is quadratic in the input seen),
+//! 4 x batch_size x target_partitions / 4 rows per tail batch) — order-preserving merges
 //! only emit once batch_size merged rows are available, so the bound has to grow with batch_size
 //! (a source parks at 4·D so that slower partitions catch up). Two reference sets are computed per shape by a small model over the prefix:
 //! `may` = every row of the final answer whose `ts` lies in the prefix; `must` ⊆ `may` = the rows
@@ -43,7 +43,27 @@
 //! are planned as a symmetric hash join without pruning, which streams its matches — generated as
 //! `ShjNoRange`, liveness demanded for the INNER matches).
 //!
-//! Sensitivity probes: see the end of this header.
+//! Genuine defect found (open in known_findings.json, signature
+//! `filter-coalescer-holds-rows:later-input-never-passes`, case regressions/C50/c50/…, proposed
+//! repair fixes/C50-filter-no-coalescing-over-unbounded-input.diff): `FilterExec` keeps rows that
+//! passed the predicate in its output coalescer until `batch_size` of them have accumulated, also
+//! over an unbounded input; when later rows do not pass, the buffered rows are never delivered
+//! (RepartitionExec deliberately switches its coalescer off for unbounded inputs). Excluded
+//! sub-shape: UNION ALL whose second branch filter `v <= c + 3` has c + 3 < 0 (tail values are 0..6).
+//!
+//! Things that looked like failures and were oracle errors (fixed in the model, not loosened):
+//! order-preserving merges emit only when batch_size merged rows are available → the bound D grows
+//! with batch_size; BoundedWindowAggExec (Linear) emits in input order and closes a ROWS frame only
+//! with f + 1 later rows of the same window partition → the tail continues the window partitions.
+//!
+//! Sensitivity probes (tools/mutrun … ./check C50 quick; all three detected):
+//!  1. physical-optimizer/src/sanity_checker.rs: `check_finiteness_requirements` no longer rejects
+//!     `EmissionType::Final` over unbounded inputs → VIOLATION "accepted query delivers nothing while
+//!     the sources advance" (`SELECT k, count(*) FROM t GROUP BY k`, AggregateExec(Single,Linear)).
+//!  2. physical-plan/src/aggregates/order/full.rs: `GroupOrderingFull::emit_to` never emits before
+//!     the end → VIOLATION "accepted query delivered nothing at all" (AggOrdered).
+//!  3. physical-plan/src/joins/symmetric_hash_join.rs: prune length forced to 0 → VIOLATION "row
+//!     determined by the prefix not delivered" (LEFT JOIN: unmatched prefix row never emitted).
 use crate::build::{make_batch, plan_ops, schema};
 use crate::env::make_env;
 use crate::scripted::{CAP_ERROR, End, Item, Monitor, Script, ScriptedPartition, TailGen, parts};
@@ -67,7 +87,7 @@ pub const SIG_FILTER_COALESCER: &str = "filter-coalescer-holds-rows:later-input-
 const B: u64 = 2_000;
 const TAIL_GAP: i64 = 10;
 /// rows per tail batch
-const TAIL_ROWS: i64 = 8;
+const TAIL_ROWS: i64 = 4;
 
 /// Deadline in tail batches per source partition. Order-preserving merges (SortPreservingMergeExec,
 /// order-preserving RepartitionExec) emit only once `batch_size` merged rows are available, per
@@ -76,8 +96,8 @@ const TAIL_ROWS: i64 = 8;
 fn deadline(case: &Case) -> u64 {
     let need_rows = 4 * case.batch_size.max(1) as u64 * case.target_partitions.clamp(1, 3) as u64;
     // a symmetric hash join without pruning re-copies its ever-growing buffers for every input
-    // batch (quadratic): its inner matches are emitted on arrival, a quarter of B is plenty
-    let floor = if matches!(case.shape, QShape::ShjNoRange) { B / 4 } else { B };
+    // batch (quadratic): its inner matches are emitted on arrival, B/16 is plenty
+    let floor = if matches!(case.shape, QShape::ShjNoRange) { B / 16 } else { B };
     floor.max(need_rows.div_ceil(TAIL_ROWS as u64))
 }
 
@@ -395,7 +415,7 @@ fn reference(case: &Case, t: &[R], u: &[R], t0: i64) -> Reference {
                 QShape::WindowRange { p, f } => (false, *p as i64, *f as i64),
                 _ => (true, 0, 0),
             };
-            // prefix ++ the first 6 tail batches of every partition (48 rows each: every key >= 8 times)
+            // prefix ++ the first 6 tail batches of every partition (24 rows each: every key 4 times; frames reach at most 3 rows ahead)
             let np = case.t.len();
             let mut rows = t.to_vec();
             for part in 0..np {
@@ -699,7 +719,7 @@ impl Property for C50 {
         vec![
             "tail rows use keys >= 100 (except window shapes) and ts >= max prefix ts + 10, so they never join or group with prefix rows".into(),
             "window shapes: the tail continues the prefix's window partitions (same keys) so that all frames close; the reference is computed over the prefix plus the first 6 tail batches of every partition".into(),
-            "bound D = max(2000, 4 x batch_size x target_partitions / 8) tail batches per source partition, counted in source batches; a 150 s per-case timeout only produces 'inconclusive'".into(),
+            "bound D = max(2000, 4 x batch_size x target_partitions / 4) tail batches per source partition, counted in source batches; a 150 s per-case timeout only produces 'inconclusive'".into(),
         ]
     }
     fn known_signature(&self, case: &Case) -> Option<String> {
